@@ -1,3 +1,4 @@
 SPECIFICATION TraceSpec
+VIEW TraceView
 POSTCONDITION TraceAccepted
 CHECK_DEADLOCK FALSE
